@@ -504,7 +504,8 @@ def generate(rng, tier, index):
             else:
                 ops.append(["call", fk, iid, rd])
     cfg = {"fault_free": not (allow_invalid_assign or allow_preempt), "scribble": rng.chance(0.3),
-           "logging": rng.weighted([("quiet", 5), ("default", 2), ("debug", 3)]), "clock": core.gen_clock(rng)}
+           "logging": rng.weighted([("quiet", 5), ("default", 2), ("debug", 3)]), "clock": core.gen_clock(rng),
+           "warnings": core.gen_warn(rng)}
     if rng.chance(0.01):
         cfg["import_env"] = rng.choice(core.IMPORT_ENVS)
     if rng.chance(0.3):
@@ -812,8 +813,8 @@ def execute(trace):
                                  "%s kind=%s -> %s" % (inp["cls"], inp["kind"], outcome))
 
     clock = core.sim_clock(trace["config"].get("clock"))
-    with warnings.catch_warnings(), np.errstate(all="ignore"), core.log_config(trace["config"].get("logging", "quiet")), clock:
-        warnings.simplefilter("ignore")
+    with core.warn_config(trace["config"].get("warnings", "ignore")), np.errstate(all="ignore"), \
+            core.log_config(trace["config"].get("logging", "quiet")), clock:
         count("logging." + (trace["config"].get("logging") or "quiet"))
         try:
             if violation is not None:
